@@ -218,7 +218,7 @@ theorem segFlux_eq_trapz (x y : List K) (h : x.length = y.length) (i j : Nat) :
 
 /-! ### `_init_bins` as a pipeline -/
 
-def ascOrder (bs : List K) : List K :=
+def ascCentres (bs : List K) : List K :=
   match bs.head?, bs.getLast? with
   | some f, some l => if f > l then bs.reverse else bs
   | _, _ => bs
@@ -234,20 +234,20 @@ def callBin (useC : Bool) (ibeg iend : List Nat) (av dw : List K) : Except Err (
 
 /-- `_init_bins` as a pipeline of its stages -/
 def initBinsSpec (E : Env K) (thr : K) (m : Tree K) (bs : List K) (useC : Bool) : Except Err (Bins K) :=
-  match binEdges (ascOrder bs) with
+  match binEdges (ascCentres bs) with
   | .error e => .error e
   | .ok edges =>
     match m.waveset thr with
     | .error e => .error e
     | .ok w =>
-      let sp := mergedGrid thr edges (ascOrder bs) w
+      let sp := mergedGrid thr edges (ascCentres bs) w
       let idx := edges.map (searchLeft sp)
       match sampleTree E m sp with
       | .error e => .error e
       | .ok flux =>
         match callBin useC idx.dropLast (idx.drop 1) (pairSums flux) (pairDiffs sp) with
         | .error e => .error e
-        | .ok r => .ok { binset := ascOrder bs, edges := edges, binflux := r.1, spwave := sp, flux := flux,
+        | .ok r => .ok { binset := ascCentres bs, edges := edges, binflux := r.1, spwave := sp, flux := flux,
                          ibeg := idx.dropLast, iend := idx.drop 1 }
 
 /-- the pipeline with the (already ordered) binset as a parameter -/
@@ -269,7 +269,7 @@ def initBinsFrom (E : Env K) (thr : K) (m : Tree K) (A : List K) (useC : Bool) :
                          ibeg := idx.dropLast, iend := idx.drop 1 }
 
 theorem initBins_eq (E : Env K) (thr : K) (m : Tree K) (bs : List K) (useC : Bool) :
-    initBins E thr m bs useC = initBinsFrom E thr m (ascOrder bs) useC := by
+    initBins E thr m bs useC = initBinsFrom E thr m (ascCentres bs) useC := by
   have key : ∀ A : List K,
       (do
         let edges ← binEdges A
@@ -372,37 +372,37 @@ theorem strictAsc_head_lt_last (a b : K) (t : List K) (h : StrictAsc (a :: b :: 
   rw [List.getLastD_cons, List.getLastD_cons]
   exact lt_of_lt_of_le h.1 (strictAsc_head_le_last t b h.2)
 
-theorem ascOrder_cons_cons (a b : K) (t : List K) :
-    ascOrder (a :: b :: t) = if a > (a :: b :: t).getLastD a then (a :: b :: t).reverse else a :: b :: t := by
-  unfold ascOrder
+theorem ascCentres_cons_cons (a b : K) (t : List K) :
+    ascCentres (a :: b :: t) = if a > (a :: b :: t).getLastD a then (a :: b :: t).reverse else a :: b :: t := by
+  unfold ascCentres
   have : (a :: b :: t).getLast? = some ((a :: b :: t).getLastD a) := by
     rw [List.getLastD_eq_getLast?, List.getLast?_eq_some_getLast (by simp)]; rfl
   rw [this]; rfl
 
-theorem ascOrder_of_asc (bs : List K) (h : StrictAsc bs) : ascOrder bs = bs := by
+theorem ascCentres_of_asc (bs : List K) (h : StrictAsc bs) : ascCentres bs = bs := by
   rcases bs with _ | ⟨a, _ | ⟨b, t⟩⟩
   · rfl
-  · simp [ascOrder]
-  · rw [ascOrder_cons_cons, if_neg (not_lt.mpr (le_of_lt (strictAsc_head_lt_last a b t h)))]
+  · simp [ascCentres]
+  · rw [ascCentres_cons_cons, if_neg (not_lt.mpr (le_of_lt (strictAsc_head_lt_last a b t h)))]
 
-theorem ascOrder_of_desc (bs : List K) (h : StrictDesc bs) : ascOrder bs = bs.reverse := by
+theorem ascCentres_of_desc (bs : List K) (h : StrictDesc bs) : ascCentres bs = bs.reverse := by
   rcases bs with _ | ⟨a, _ | ⟨b, t⟩⟩
   · rfl
-  · simp [ascOrder]
-  · rw [ascOrder_cons_cons, if_pos (strictDesc_last_lt_head a b t h)]
+  · simp [ascCentres]
+  · rw [ascCentres_cons_cons, if_pos (strictDesc_last_lt_head a b t h)]
 
 /-- for valid wavelengths the constructor's ordering step yields the strictly ascending arrangement -/
-theorem ascOrder_valid (bs : List K) (hv : validateWavelengths bs = .ok ()) :
-    StrictAsc (ascOrder bs) ∧ (ascOrder bs = bs ∨ ascOrder bs = bs.reverse) ∧
-      (∀ x ∈ ascOrder bs, 0 < x) ∧ ascOrder bs.reverse = ascOrder bs := by
+theorem ascCentres_valid (bs : List K) (hv : validateWavelengths bs = .ok ()) :
+    StrictAsc (ascCentres bs) ∧ (ascCentres bs = bs ∨ ascCentres bs = bs.reverse) ∧
+      (∀ x ∈ ascCentres bs, 0 < x) ∧ ascCentres bs.reverse = ascCentres bs := by
   obtain ⟨hpos, hmon⟩ := (validate_ok_iff bs).mp hv
   rcases hmon with hA | hD
-  · have h1 := ascOrder_of_asc bs hA
-    have h2 := ascOrder_of_desc bs.reverse ((strictDesc_reverse bs).mpr hA)
+  · have h1 := ascCentres_of_asc bs hA
+    have h2 := ascCentres_of_desc bs.reverse ((strictDesc_reverse bs).mpr hA)
     rw [List.reverse_reverse] at h2
     exact ⟨by rw [h1]; exact hA, Or.inl h1, by rw [h1]; exact hpos, by rw [h1, h2]⟩
-  · have h1 := ascOrder_of_desc bs hD
-    have h2 := ascOrder_of_asc bs.reverse ((strictAsc_reverse bs).mpr hD)
+  · have h1 := ascCentres_of_desc bs hD
+    have h2 := ascCentres_of_asc bs.reverse ((strictAsc_reverse bs).mpr hD)
     exact ⟨by rw [h1]; exact (strictAsc_reverse bs).mpr hD, Or.inr h1,
       by rw [h1]; intro x hx; exact hpos x (List.mem_reverse.mp hx), by rw [h1, h2]⟩
 
@@ -965,20 +965,20 @@ theorem initBinsFrom_of_pieces (E : Env K) (thr : K) (m : Tree K) (A : List K) (
 same bins -/
 theorem initBins_succeeds (E : Env K) (thr : K) (m : Tree K) (bs : List K)
     (hv : validateWavelengths bs = .ok ()) (w : Option (List K)) (hw : m.waveset thr = .ok w)
-    (heval : ∀ x, 0 < x → ∃ y, m.eval E x = .ok y) (edges : List K) (he : binEdges (ascOrder bs) = .ok edges)
-    (hedge : ∀ e ∈ edges, e ∈ mergedGrid thr edges (ascOrder bs) w) :
-    ∃ b, initBins E thr m bs true = .ok b ∧ initBins E thr m bs false = .ok b ∧ b.binset = ascOrder bs ∧
-      b.edges = edges ∧ b.spwave = mergedGrid thr edges (ascOrder bs) w ∧
+    (heval : ∀ x, 0 < x → ∃ y, m.eval E x = .ok y) (edges : List K) (he : binEdges (ascCentres bs) = .ok edges)
+    (hedge : ∀ e ∈ edges, e ∈ mergedGrid thr edges (ascCentres bs) w) :
+    ∃ b, initBins E thr m bs true = .ok b ∧ initBins E thr m bs false = .ok b ∧ b.binset = ascCentres bs ∧
+      b.edges = edges ∧ b.spwave = mergedGrid thr edges (ascCentres bs) w ∧
       sampleTree E m b.spwave = .ok b.flux := by
-  obtain ⟨flux, hf⟩ := mapM_ok_of_forall (m.eval E) (mergedGrid thr edges (ascOrder bs) w)
+  obtain ⟨flux, hf⟩ := mapM_ok_of_forall (m.eval E) (mergedGrid thr edges (ascCentres bs) w)
     (fun x hx => heval x (mergedGrid_pos thr edges _ w x hx))
-  have hfl : flux.length = (mergedGrid thr edges (ascOrder bs) w).length := mapM_ok_length _ _ _ hf
+  have hfl : flux.length = (mergedGrid thr edges (ascCentres bs) w).length := mapM_ok_length _ _ _ hf
   have hcc := constructed_call_consistent _ flux edges (mergedGrid_strictAsc thr edges _ w)
-    (binEdges_strictAsc _ _ (ascOrder_valid bs hv).1 he) hedge hfl
+    (binEdges_strictAsc _ _ (ascCentres_valid bs hv).1 he) hedge hfl
   obtain ⟨r, h1, h2, _, _⟩ := consistent_both_ok _ _ _ _ hcc
-  refine ⟨Bins.mk (ascOrder bs) edges r.1 (mergedGrid thr edges (ascOrder bs) w) flux
-            ((edges.map (searchLeft (mergedGrid thr edges (ascOrder bs) w))).dropLast)
-            ((edges.map (searchLeft (mergedGrid thr edges (ascOrder bs) w))).drop 1), ?_, ?_, rfl, rfl, rfl, hf⟩
+  refine ⟨Bins.mk (ascCentres bs) edges r.1 (mergedGrid thr edges (ascCentres bs) w) flux
+            ((edges.map (searchLeft (mergedGrid thr edges (ascCentres bs) w))).dropLast)
+            ((edges.map (searchLeft (mergedGrid thr edges (ascCentres bs) w))).drop 1), ?_, ?_, rfl, rfl, rfl, hf⟩
   · rw [initBins_eq]
     exact initBinsFrom_of_pieces E thr m _ true edges w flux r he hw hf (by unfold callBin; rw [if_pos rfl]; exact h1)
   · rw [initBins_eq]
@@ -1128,10 +1128,10 @@ theorem wValid : validateWavelengths (wBs : List K) = .ok () := by
 
 theorem wStrictAsc : StrictAsc (wBs : List K) := ⟨by norm_num, by norm_num, trivial⟩
 
-theorem wAsc : ascOrder (wBs : List K) = wBs := ascOrder_of_asc _ wStrictAsc
+theorem wAsc : ascCentres (wBs : List K) = wBs := ascCentres_of_asc _ wStrictAsc
 
-theorem wDesc : ascOrder ([8, 4, 2] : List K) = wBs :=
-  ascOrder_of_desc _ ⟨by norm_num, by norm_num, trivial⟩
+theorem wDesc : ascCentres ([8, 4, 2] : List K) = wBs :=
+  ascCentres_of_desc _ ⟨by norm_num, by norm_num, trivial⟩
 
 theorem wBinEdges : binEdges (wBs : List K) = .ok wEdges := by
   simp only [binEdges, wBs, wEdges, mids, List.getLastD, List.getLast?, List.cons_append, List.nil_append]
